@@ -7,6 +7,7 @@
 -/
 import FianoModel.Cbfs.Model
 import FianoModel.Cbfs.Present
+import FianoModel.Cbfs.Keep
 import FianoModel.Gen.Cbfs
 
 namespace Fiano.Cbfs
@@ -64,9 +65,11 @@ theorem tie_readfull : Gen.Cbfs.calls_ReadName_io_ReadFull.length = 1 ∧
     Gen.Cbfs.calls_ReadData_io_ReadFull.length = 1 := by decide
 
 /-- which fields the record constructors / readers overwrite: the empty record its attributes and
-    data (and nothing else — not the type), the unknown record nothing, the payload reader its own
+    data (and nothing else — not the type; model `newImage`) or, as repaired by
+    fixes/C19-update-empty-identity.diff, nothing (model `newImageK`, Cbfs/Keep.lean; the harness observes
+    which of the two the tree contains), the unknown record nothing, the payload reader its own
     `Segs` and `Data` (not `FData`), the legacy stage reader its own `Data` -/
-theorem tie_overwrites : Gen.Cbfs.assigns_NewEmptyRecord.length = 2 ∧
+theorem tie_overwrites : (Gen.Cbfs.assigns_NewEmptyRecord.length = 2 ∨ Gen.Cbfs.assigns_NewEmptyRecord = []) ∧
     Gen.Cbfs.assigns_NewUnknownRecord = [] ∧
     Gen.Cbfs.assigns_PayloadRecord_Read.length = 2 ∧
     Gen.Cbfs.assigns_LegacyStageRecord_Read.length = 1 ∧
@@ -168,5 +171,24 @@ theorem tie_json_values :
       "Compression=File.Compression().String()"] ∧
     Gen.Cbfs.keyedlit_PayloadHeader_MarshalJSON = ["Type=Type.String()", "Compression=Compression.String()",
       "Offset=Offset", "LoadAddress=LoadAddress", "Size=Size", "MemSize=MemSize"] := by decide
+
+/-! ## follow-up wp-c19c: empty-space records, `Image.Remove` -/
+
+/-- who fills in the content of an empty-space record: before fixes/C19-update-empty-identity.diff the
+    constructor `NewEmptyRecord` (2 assignments: `Attr`, `FData`; model `newImage`, `removedSeg false`) and
+    `Remove` sets 5 header / name fields and `i.Segs`; as repaired the constructor assigns nothing (model
+    `newImageK`) and `Remove` sets `Attr` and `FData` as well (`removedSeg true`). One more assignment in
+    either case when `Remove` also moves `RecordStart` to the start of the merged range
+    (fixes/C19-remove-merge-start.diff, model `removeSegs _ true`). Counts, so a local rename does not matter;
+    the harness observes the variants (`emptyVariant`, `removeVariant`) for the T2 tie. -/
+theorem tie_empty_variant :
+    (Gen.Cbfs.assigns_NewEmptyRecord.length = 2 ∧
+      (Gen.Cbfs.assigns_Image_Remove.length = 6 ∨ Gen.Cbfs.assigns_Image_Remove.length = 7)) ∨
+    (Gen.Cbfs.assigns_NewEmptyRecord = [] ∧
+      (Gen.Cbfs.assigns_Image_Remove.length = 8 ∨ Gen.Cbfs.assigns_Image_Remove.length = 9)) := by decide
+
+/-- `Remove` refuses the bootblock at the end of the archive: the type constant; the erased content is
+    `ffbyte` (tied as code by Cbfs/CodeTie.lean) -/
+theorem tie_bootblock : typeBootBlock = Gen.Cbfs.TypeBootBlock := by decide
 
 end Fiano.Cbfs
